@@ -345,6 +345,8 @@ impl Property for C13 {
         let data = match mode {
             Mode::File => {
                 let n = match rng.below(10) {
+                    // scale: 64 KiB and beyond (strategy switches, late faults), 1 MiB and beyond
+                    0 if rng.chance(1, 25) => *rng.pick(&[65_535usize, 65_536, 65_537, 70_000, 131_072, 131_073, 1_048_576, 1_048_577, 1_050_000, 2_097_153]),
                     0..=4 => *rng.pick(&BOUNDARY_LENS),
                     5..=7 => rng.urange(0, 300),
                     8 => rng.urange(300, 9000),
